@@ -88,4 +88,109 @@ theorem TS.adjacent_build_spec (ops : List Op) (v y : Nat) (d : Dir) :
     y ∈ (TS.build ops).adjacent true v d ↔ y ∈ (G.ofOps ops).adj v d := by
   rw [TS.adjacent_spec (TS.rel_build ops) true v y d (Or.inr rfl), TS.build_deleted, G.dropEdges_nil]
 
+/-- TSDFS / TSBFS over ANY `EachAdjacentEdge` that lists exactly the incident edges of `g`: termination with the
+explicit fuel bound `treeSize`, and the handler calls are a permutation of `maxWalks`. -/
+theorem traverse_of_incident (bfs : Bool) (adjE : Nat → Dir → List Edge) (g : G) (hinc : ∀ n d, adjE n d = g.incident n d)
+    (d : Dir) (filt : Edge → Bool) (maxDepth : Int) (root : Nat)
+    (hterm : maxDepth > 0 ∨ ∃ rk : Nat → Nat, ∀ n e, e ∈ g.incident n d → filt e = true → rk (e.other n) < rk n) :
+    ∃ F fuel0,
+      (∀ F', F ≤ F' → maxWalks g d filt maxDepth Edge.other F' [⟨root, 0⟩] = maxWalks g d filt maxDepth Edge.other F [⟨root, 0⟩]) ∧
+      ∀ fuel, fuel0 ≤ fuel → ∃ out inc,
+        tsTraverse bfs true (fun n => adjE n d) d filt maxDepth fuel root = some (out, inc) ∧
+        out.Perm (maxWalks g d filt maxDepth Edge.other F [⟨root, 0⟩]) ∧
+        inc = (out.filter (segExceeded maxDepth)).length := by
+  have hadj : (fun n => adjE n d) = (fun n => g.incident n d) := by funext n; exact hinc n d
+  have hb : ∃ F, Bounded (segChildren (fun n => g.incident n d) filt maxDepth Edge.other) F [⟨root, 0⟩] := by
+    rcases hterm with hmd | ⟨rk, hrk⟩
+    · exact ⟨maxDepth.toNat + 1, seg_bounded_depth _ filt maxDepth _ hmd maxDepth.toNat [⟨root, 0⟩] (by simp; omega)⟩
+    · exact ⟨rk root + 1, seg_bounded_rank _ filt maxDepth _ rk hrk (rk root) [⟨root, 0⟩] (Nat.le_refl _)⟩
+  obtain ⟨F, hF⟩ := hb
+  refine ⟨F, treeSize (segChildren (fun n => g.incident n d) filt maxDepth Edge.other) F [⟨root, 0⟩], ?_, ?_⟩
+  · intro F' hle
+    exact treeLeaves_stable_le _ _ hF hle
+  · intro fuel hfuel
+    unfold tsTraverse
+    rw [hadj, pickAt_true]
+    exact travLoop_root bfs _ segIsPath (segExceeded maxDepth) F [⟨root, 0⟩] hF fuel hfuel
+
+theorem stateless_of_incident (adjE : Nat → Dir → List Edge) (g : G) (hinc : ∀ n d, adjE n d = g.incident n d)
+    (d : Dir) (wfilt : Edge → Option Nat) (maxDepth : Int) (root : Nat)
+    (hterm : maxDepth > 0 ∨ ∃ rk : Nat → Nat, ∀ n e, e ∈ g.incident n d → (wfilt e).isSome = true → rk (e.other n) < rk n) :
+    ∃ F fuel0,
+      (∀ F', F ≤ F' → maxTerms g d wfilt maxDepth F' ⟨root, 0, 0⟩ = maxTerms g d wfilt maxDepth F ⟨root, 0, 0⟩) ∧
+      ∀ fuel, fuel0 ≤ fuel → ∃ out inc,
+        statelessBFS true (fun n => adjE n d) d wfilt maxDepth fuel root = some (out, inc) ∧
+        out.Perm (maxTerms g d wfilt maxDepth F ⟨root, 0, 0⟩) ∧
+        inc = (out.filter (ptExceeded maxDepth)).length ∧
+        ∀ t ∈ out, 1 ≤ t.dist ∧ t.node ∈ walkEnds (admittedEnds (fun n => g.incident n d) wfilt) root t.dist := by
+  have hadj : (fun n => adjE n d) = (fun n => g.incident n d) := by funext n; exact hinc n d
+  have hb : ∃ F, Bounded (ptChildren (fun n => g.incident n d) wfilt maxDepth Edge.other) F ⟨root, 0, 0⟩ := by
+    rcases hterm with hmd | ⟨rk, hrk⟩
+    · exact ⟨maxDepth.toNat + 2, pt_bounded_depth _ wfilt maxDepth _ hmd (maxDepth.toNat + 1) ⟨root, 0, 0⟩ (by simp)⟩
+    · exact ⟨rk root + 1, pt_bounded_rank _ wfilt maxDepth _ rk hrk (rk root) ⟨root, 0, 0⟩ (Nat.le_refl _)⟩
+  obtain ⟨F, hF⟩ := hb
+  refine ⟨F, treeSize (ptChildren (fun n => g.incident n d) wfilt maxDepth Edge.other) F ⟨root, 0, 0⟩, ?_, ?_⟩
+  · intro F' hle
+    exact treeLeaves_stable_le _ _ hF hle
+  · intro fuel hfuel
+    unfold statelessBFS
+    rw [hadj, pickAt_true]
+    obtain ⟨out, inc, h1, h2, h3⟩ := travLoop_root true _ ptIsPath (ptExceeded maxDepth) F ⟨root, 0, 0⟩ hF fuel hfuel
+    refine ⟨out, inc, h1, h2, h3, ?_⟩
+    intro t ht
+    have hmem := h2.mem_iff.mp ht
+    refine ⟨?_, ptLeaves_walk _ wfilt maxDepth root F ⟨root, 0, 0⟩ t (by simp [walkEnds_zero]) hmem⟩
+    have := treeLeaves_isPath _ ptIsPath F _ t hmem
+    simpa [ptIsPath] using this
+
+/-! ### hooks/C14-fix3.patch semantics: every read path honours the tombstones -/
+
+theorem dropEdges_incident (g : G) (ids : List Nat) (n : Nat) (d : Dir) :
+    (g.dropEdges ids).incident n d = (g.incident n d).filter (fun e => !(ids.contains e.id)) := by
+  rw [incident_eq, incident_eq]
+  show List.filter _ (List.filter _ g.edges) = _
+  rw [List.filter_filter, List.filter_filter]
+  apply List.filter_congr
+  intro e _
+  rw [Bool.and_comm]
+
+theorem TS.adjacentEdgesT_eq {t : TS} {g : G} (r : t.Rel g) (n : Nat) (d : Dir) :
+    t.adjacentEdgesT true n d = (g.dropEdges t.deleted).incident n d := by
+  unfold TS.adjacentEdgesT
+  rw [if_pos rfl, TS.adjacentEdges_eq r, dropEdges_incident]
+  rfl
+
+theorem Proj.adjacentEdgesT_eq {t : TS} {g : G} (r : t.Rel g) (dn de : List Nat) (n : Nat) (d : Dir) :
+    Proj.adjacentEdgesT true ⟨t, dn, de⟩ n d = ((g.dropEdges t.deleted).project dn de).incident n d := by
+  unfold Proj.adjacentEdgesT
+  simp only
+  rw [TS.adjacentEdgesT_eq r, incident_eq, incident_eq, project_edges_eq, List.filter_filter, List.filter_filter]
+  apply List.filter_congr
+  intro e _
+  rw [Bool.and_comm]
+  rfl
+
+theorem TS.edgesT_eq {t : TS} {g : G} (r : t.Rel g) : t.edgesT true = (g.dropEdges t.deleted).edges := by
+  unfold TS.edgesT
+  rw [if_pos rfl, r.edges]
+  rfl
+
+theorem mem_incident {g : G} {e : Edge} {n : Nat} {d : Dir} : e ∈ g.incident n d ↔ e ∈ g.edges ∧ Incident e n d := by
+  rw [incident_eq, List.mem_filter, incB_iff]
+
+/-- a projection under the fix3 semantics presents the projection of the tombstone-free graph -/
+theorem Proj.adjacentT_spec {t : TS} {g : G} (r : t.Rel g) (dn de : List Nat) (v y : Nat) (d : Dir) :
+    y ∈ Proj.adjacentT true true ⟨t, dn, de⟩ v d ↔ y ∈ ((g.dropEdges t.deleted).project dn de).adj v d := by
+  unfold Proj.adjacentT
+  rw [Proj.adjacentEdgesT_eq r, List.mem_map, mem_adj]
+  have hfilt : ((g.dropEdges t.deleted).project dn de).edges = ((g.dropEdges t.deleted).project dn de).edges.filter (fun _ => true) := by
+    exact (List.filter_eq_self.mpr (fun _ _ => rfl)).symm
+  rw [hfilt, adjRel_filter]
+  constructor
+  · rintro ⟨e, he, hy⟩
+    obtain ⟨he1, hinc⟩ := mem_incident.mp he
+    exact ⟨e, he1, rfl, hinc, by rw [← pickOr_good hinc (Or.inr rfl)]; exact hy⟩
+  · rintro ⟨e, he, _, hinc, hy⟩
+    exact ⟨e, mem_incident.mpr ⟨he, hinc⟩, by rw [pickOr_good hinc (Or.inr rfl)]; exact hy⟩
+
 end Dawgs.C14
